@@ -85,6 +85,16 @@ def cases(tier, seed):
     return out
 
 
+def _ulp_perturbed(case, problem, seed):
+    """The same problem with every initial value and step moved by one unit roundoff (random signs): re-solving it with
+    the SAME factorisation measures how strongly float64 rounding is amplified on this problem (its conditioning)."""
+    r = np.random.default_rng(seed)
+    u = poly.Fraction(1, 2**52)
+    inits = [[str(poly.Fraction(x) * (1 + int(r.choice([-1, 1])) * u)) for x in blk] for blk in problem["inits"]]
+    steps = [float(h) * (1.0 + float(r.choice([-1.0, 1.0])) * 2.0**-52) for h in case["steps"]]
+    return {**case, "steps": steps}, {**problem, "inits": inits}
+
+
 def _solve(case, fact, problem, *, ts, strategy=None):
     import jax
     import jax.numpy as jnp
@@ -136,14 +146,28 @@ def run_case(case):
     d = field.d
     viols, obs = [], {"cases": 1}
     tags = {"kind": kind, "cal": cal, "strategy": case["strategy"], "nu": nu}
-    # float-vs-float across factorisations; rounding amplification grows with the order (measured: 8e-8 at nu<=4,
-    # 6e-4 at nu=6 for smoothers) - at nu=6 only gross disagreement is detectable in float64
-    tol = TOL * {1: 1.0, 2: 1.0, 3: 1.0, 4: 1.0, 5: 100.0}.get(nu, 1e4)
+    # float-vs-float across factorisations. A deviation above the tight tolerance is judged against the *measured*
+    # conditioning of the problem: the reference-side factorisation is re-run on the same problem with all inputs moved by
+    # one unit roundoff; two correct float64 implementations cannot agree better than a modest multiple of that change
+    # (rounding amplification reaches 1e-3 at nu = 6 for smoothers, while it is 1e-10 for most problems of the same order).
+    tol = TOL
+    sens_cache = {}
 
-    def note(name, val, limit=None):
+    def measured(key, fn):
+        if key not in sens_cache:
+            sens_cache[key] = fn()
+            obs["conditioning_measured"] = obs.get("conditioning_measured", 0) + 1
+            obs["max_measured_sensitivity"] = max(obs.get("max_measured_sensitivity", 0.0), max(sens_cache[key].values()))
+        return sens_cache[key]
+
+    def note(name, val, limit=None, sens=None):
         limit = tol if limit is None else limit
         obs["pairs_compared"] = obs.get("pairs_compared", 0) + 1
         obs["max_dev_" + name] = max(obs.get("max_dev_" + name, 0.0), val)
+        if not val <= limit and sens is not None and np.isfinite(val):
+            key, fn, which = sens
+            limit = limit + 20.0 * measured(key, fn)[which]
+            obs["judged_by_measured_conditioning"] = obs.get("judged_by_measured_conditioning", 0) + 1
         if not val <= limit:
             viols.append(util.viol(name, f"{name}: deviation {val:.3g} (tolerance {limit:.2g})", tags=tags))
 
@@ -159,15 +183,28 @@ def run_case(case):
             if not np.array_equal(nd, ni):
                 viols.append(util.viol("adaptive_step_counts", f"dense took {nd.tolist()} steps, isotropic {ni.tolist()}", tags=tags))
                 return {"violations": viols, "obs": obs, "sigs": []}
-        note("dense_vs_isotropic", _cmp(iso, dn, tol, floors=fl))
-        note("dense_vs_isotropic_scale", util.rel_err(si, sd, floor=1e-300), limit=max(tol, 1e-6))
+        def sens_dense():
+            out = {"all": 0.0, "means": 0.0, "covs": 0.0, "scale": 0.0}
+            for sd_ in (1, 2):
+                cp, pp = _ulp_perturbed(case, problem, case.get("seedp", 0) + sd_)
+                dnp, sdp, ndp, _ = _solve(cp, "dense", pp, ts="ts0")
+                if kind == "adaptive" and not np.array_equal(ndp, nd):
+                    continue  # a different step sequence measures something else
+                out["all"] = max(out["all"], _cmp(dnp, dn, tol, floors=fl))
+                out["means"] = max(out["means"], _cmp(dnp, dn, tol, covs=False, floors=fl))
+                out["covs"] = max(out["covs"], _cmp(dnp, dn, tol, means=False, floors=fl))
+                out["scale"] = max(out["scale"], util.rel_err(sdp, sd, floor=1e-300))
+            return out
+
+        note("dense_vs_isotropic", _cmp(iso, dn, tol, floors=fl), sens=("dense", sens_dense, "all"))
+        note("dense_vs_isotropic_scale", util.rel_err(si, sd, floor=1e-300), limit=max(tol, 1e-6), sens=("dense", sens_dense, "scale"))
         if kind == "ts0" and cal != "dynamic":
             bd, sb, _, _ = _solve(case, "blockdiag", problem, ts="ts0")
-            note("dense_vs_blockdiag_means", _cmp(bd, dn, tol, covs=False, floors=fl))
+            note("dense_vs_blockdiag_means", _cmp(bd, dn, tol, covs=False, floors=fl), sens=("dense", sens_dense, "means"))
             if cal == "solver":
-                note("dense_vs_blockdiag_covs", _cmp(bd, dn, tol, means=False, floors=fl))
+                note("dense_vs_blockdiag_covs", _cmp(bd, dn, tol, means=False, floors=fl), sens=("dense", sens_dense, "covs"))
             else:
-                note("blockdiag_mle_scale_split", util.rel_err(np.sqrt(np.mean(sb**2, axis=-1)), sd, floor=1e-300), limit=max(tol, 1e-6))
+                note("blockdiag_mle_scale_split", util.rel_err(np.sqrt(np.mean(sb**2, axis=-1)), sd, floor=1e-300), limit=max(tol, 1e-6), sens=("dense", sens_dense, "scale"))
     elif kind == "decoupled":
         obs["decoupled_cases"] = 1
         bd, sb, _, grid = _solve(case, "blockdiag", problem, ts="ts1")
@@ -183,17 +220,39 @@ def run_case(case):
             idx = np.arange(n) * d + k
             sub = [(m[idx], P[np.ix_(idx, idx)]) for m, P in bd]
             sck = float(np.max(ssk)) if cal != "solver" else 1.0
-            note("blockdiag_vs_scalar_dense", _cmp(sub, sk, tol, floors=floors_mod.floors_for_grid(nu, 1, grid, scale=sck)))
+            flk = floors_mod.floors_for_grid(nu, 1, grid, scale=sck)
+
+            def sens_scalar(pk=pk, sk=sk, ssk=ssk, flk=flk):
+                out = {"all": 0.0, "scale": 0.0}
+                for sd_ in (1, 2):
+                    cp, pp = _ulp_perturbed(case, pk, case.get("seedp", 0) + sd_)
+                    skp, sskp, _, _ = _solve(cp, "dense", pp, ts="ts1")
+                    out["all"] = max(out["all"], _cmp(skp, sk, tol, floors=flk))
+                    out["scale"] = max(out["scale"], util.rel_err(sskp, ssk, floor=1e-300))
+                return out
+
+            note("blockdiag_vs_scalar_dense", _cmp(sub, sk, tol, floors=flk), sens=(f"scalar{k}", sens_scalar, "all"))
             sbk = sb[..., k] if sb.ndim > 1 else sb
-            note("blockdiag_vs_scalar_dense_scale", util.rel_err(sbk, ssk, floor=1e-300), limit=max(tol, 1e-6))
+            note("blockdiag_vs_scalar_dense_scale", util.rel_err(sbk, ssk, floor=1e-300), limit=max(tol, 1e-6), sens=(f"scalar{k}", sens_scalar, "scale"))
     else:
         obs["scalar_jacobian_cases"] = 1
         dn, sd, _, grid = _solve(case, "dense", problem, ts="ts1")
         if max(float(np.max(np.abs(m))) for m, _ in dn) > 1e4:
             return {"violations": [], "obs": {"cases": 1, "exploded_skipped": 1}, "sigs": []}
         iso, si, _, _ = _solve(case, "isotropic", problem, ts="ts1")
-        note("ts1_dense_vs_isotropic", _cmp(iso, dn, tol, floors=floors_mod.floors_for_grid(nu, d, grid, scale=float(np.max(sd)) if cal != "solver" else 1.0)))
-        note("ts1_dense_vs_isotropic_scale", util.rel_err(si, sd, floor=1e-300), limit=max(tol, 1e-6))
+        fl = floors_mod.floors_for_grid(nu, d, grid, scale=float(np.max(sd)) if cal != "solver" else 1.0)
+
+        def sens_dense1():
+            out = {"all": 0.0, "scale": 0.0}
+            for sd_ in (1, 2):
+                cp, pp = _ulp_perturbed(case, problem, case.get("seedp", 0) + sd_)
+                dnp, sdp, _, _ = _solve(cp, "dense", pp, ts="ts1")
+                out["all"] = max(out["all"], _cmp(dnp, dn, tol, floors=fl))
+                out["scale"] = max(out["scale"], util.rel_err(sdp, sd, floor=1e-300))
+            return out
+
+        note("ts1_dense_vs_isotropic", _cmp(iso, dn, tol, floors=fl), sens=("dense1", sens_dense1, "all"))
+        note("ts1_dense_vs_isotropic_scale", util.rel_err(si, sd, floor=1e-300), limit=max(tol, 1e-6), sens=("dense1", sens_dense1, "scale"))
     sigs = [f"{kind}|{case['strategy']}|{cal}|{nu}|{d}"] if len(case["steps"]) >= 3 else []
     sample = {"config": tags, "field": field.describe(), "deviations": {k: v for k, v in obs.items() if k.startswith("max_dev")}}
     return {"violations": viols, "obs": obs, "sigs": sigs, "sample": sample}
